@@ -31,7 +31,7 @@ enum Op : int32_t {
   OP_COMM_SIZE = 1, OP_COMM_RANK, OP_ISEND, OP_IRECV, OP_ICOLL, OP_CANCEL, OP_LOG, OP_COMM_FREE,
   OP_TEST = 100, OP_WAITSOME, OP_WAIT, OP_COLL, OP_FINALIZE
 };
-enum CollKind : int32_t { CK_BARRIER = 1, CK_ALLREDUCE, CK_ALLGATHER, CK_EXSCAN, CK_BCAST, CK_DUP, CK_SPLIT };
+enum CollKind : int32_t { CK_BARRIER = 1, CK_ALLREDUCE, CK_ALLGATHER, CK_EXSCAN, CK_BCAST, CK_DUP, CK_SPLIT, CK_SCAN };
 
 struct Hdr { int32_t op; int32_t a[7]; uint64_t len; };
 
@@ -111,6 +111,7 @@ int MPI_Exscan(const void* s, void* r, int n, MPI_Datatype dt, MPI_Op op, MPI_Co
   std::vector<char> tmp(n * dtsize(dt)); int has = coll(CK_EXSCAN, c, dt, op, n, 0, s, n * dtsize(dt), tmp.data(), tmp.size());
   if (has) memcpy(r, tmp.data(), tmp.size());   // rank 0: recvbuf untouched (undefined by the standard)
   return MPI_SUCCESS; }
+int MPI_Scan(const void* s, void* r, int n, MPI_Datatype dt, MPI_Op op, MPI_Comm c) { coll(CK_SCAN, c, dt, op, n, 0, s, n * dtsize(dt), r, n * dtsize(dt)); return MPI_SUCCESS; }
 int MPI_Allgather(const void* s, int sn, MPI_Datatype sdt, void* r, int rn, MPI_Datatype rdt, MPI_Comm c) {
   int sz; MPI_Comm_size(c, &sz); coll(CK_ALLGATHER, c, sdt, 0, sn, 0, s, sn * dtsize(sdt), r, (size_t)sz * rn * dtsize(rdt)); return MPI_SUCCESS; }
 int MPI_Bcast(void* b, int n, MPI_Datatype dt, int root, MPI_Comm c) { coll(CK_BCAST, c, dt, 0, n, root, b, n * dtsize(dt), b, n * dtsize(dt)); return MPI_SUCCESS; }
@@ -211,6 +212,7 @@ struct Coord {
       case CK_BARRIER: break;
       case CK_ALLREDUCE: { auto acc = in.contrib[0]; for (int i = 1; i < m; ++i) reduce(acc, in.contrib[i], in.dt, in.op); for (int i = 0; i < m; ++i) in.result[i] = acc; break; }
       case CK_EXSCAN: { std::vector<char> acc; for (int i = 0; i < m; ++i) { if (i > 0) { in.result[i] = acc; in.ret[i] = 1; } if (i == 0) acc = in.contrib[0]; else reduce(acc, in.contrib[i], in.dt, in.op); } break; }
+      case CK_SCAN: { std::vector<char> acc; for (int i = 0; i < m; ++i) { if (i == 0) acc = in.contrib[0]; else reduce(acc, in.contrib[i], in.dt, in.op); in.result[i] = acc; } break; }
       case CK_ALLGATHER: { std::vector<char> all; for (int i = 0; i < m; ++i) all.insert(all.end(), in.contrib[i].begin(), in.contrib[i].end()); for (int i = 0; i < m; ++i) in.result[i] = all; break; }
       case CK_BCAST: for (int i = 0; i < m; ++i) in.result[i] = in.contrib[in.root]; break;
       case CK_DUP: { int id = next_comm++; comms[id].members = c.members; comms[id].seq.assign(m, 0); for (int i = 0; i < m; ++i) in.ret[i] = id; break; }
